@@ -513,6 +513,7 @@ class StaticEval:
         self.crate = crate
         self.cache = {}
         self.stack = []
+        self.defaults_used = set()     # `<T as Default>::default` impls relied on for omitted fields
 
     def static(self, defpath):
         if defpath in self.cache:
@@ -568,12 +569,18 @@ class StaticEval:
                 return self.static(d)
             raise Unevaluable(f"path {d} of kind {kind} (line {line})")
         if k == "struct":
-            fields = {f["f"]: self.ev(f["x"], env) for f in e["fields"]}
+            fields = {}
+            for f in e["fields"]:
+                try:
+                    fields[f["f"]] = self.ev(f["x"], env)
+                except Unevaluable as ex:       # only an error if the rule reads this field
+                    fields[f["f"]] = V("error", str(ex), line=f["x"].get("line"))
             base = None
             if "base" in e:
                 bb = unwrap(e["base"])
-                if bb.get("e") == "call" and callee_of(bb).endswith("Default::default"):
+                if bb.get("e") == "call" and not bb["args"] and any(c.endswith("::default") for c in callee_any(bb)):
                     base = "default"
+                    self.defaults_used.add(bb.get("resolved") or bb.get("callee") or "")
                 else:
                     bv = self.ev(bb, env)
                     if bv.kind != "struct":
@@ -658,7 +665,53 @@ def field(v, name, default=None):
     if v.kind != "struct":
         raise Unevaluable("not a struct value")
     if name in v.fields:
+        if v.fields[name].kind == "error":
+            raise Unevaluable(f"field {name}: {v.fields[name].name}")
         return v.fields[name]
     if getattr(v, "base", None) == "default":
         return default
     raise Unevaluable(f"field {name} missing in {short(v.name, 1)} literal")
+
+
+# ---------------------------------------------------------------------------
+# the data module of the target domain level (shared by C25 and C48)
+
+def target_data_module(F, crate="kanidmd_lib"):
+    """(module def-path, migration fn def-path, target level) of the migration dispatched for DOMAIN_TGT_LEVEL by
+    reload_domain_info_version, or raises Unevaluable. (C48 checks the dispatcher itself in detail.)"""
+    import re
+    CONST = "kanidmd_lib::constants::"
+    MIG = "kanidmd_lib::server::migrations::<impl server::QueryServerWriteTransaction<'_>>::"
+    tgt = F.const_val(crate, CONST + "DOMAIN_TGT_LEVEL")
+    names = F.find_fns(crate, r"^kanidmd_lib::server::QueryServerWriteTransaction::<'.*>::reload_domain_info_version$")
+    if tgt is None or len(names) != 1:
+        raise Unevaluable("DOMAIN_TGT_LEVEL / reload_domain_info_version not found")
+    rl = F.fn(crate, names[0])
+    migs = []
+    for x in user_nodes(rl["body"]):
+        if x.get("e") != "if":
+            continue
+        c = peel(x["cond"])
+        if not (c.get("e") == "bin" and c["op"] == "&&"):
+            continue
+        r = peel(c["r"])
+        if r.get("e") == "bin" and r["op"] == ">=" and def_of(peel(r["r"])).startswith(CONST) and F.const_val(crate, def_of(peel(r["r"]))) == tgt:
+            migs += [callee_of(k) for k in user_nodes(x["then"]) if k.get("e") == "mcall" and callee_of(k).startswith(MIG + "migrate_domain")]
+    if len(migs) != 1:
+        raise Unevaluable(f"no unique migration dispatched for target level {tgt}")
+    mods = set()
+    todo = [migs[0]]
+    mf = F.fn(crate, migs[0])
+    if mf is None:
+        raise Unevaluable(f"{migs[0]} has no body")
+    todo += [callee_of(k) for k in user_nodes(mf["body"]) if k.get("e") == "mcall" and callee_of(k).startswith(MIG + "migrate_schema")]
+    for n in todo:
+        d = F.fn(crate, n)
+        for k in user_nodes(d["body"]) if d else []:
+            if k.get("e") == "call":
+                mm = re.match(r"^(kanidmd_lib::migration_data::\w+)::phase_\d+_\w+$", callee_of(k))
+                if mm:
+                    mods.add(mm.group(1))
+    if len(mods) != 1:
+        raise Unevaluable(f"target migration uses data modules {sorted(mods)}")
+    return next(iter(mods)), migs[0], tgt
